@@ -4,6 +4,7 @@ CONSTANTS
   Hosted <- TraceHosted
   Keys <- TraceKeys
   Vals <- TraceVals
+  NsOf <- TraceNs
   RouteMulti = "perkey"
   OwnerShift = 0
   RejectUnhosted = TRUE
